@@ -6,7 +6,8 @@
 #   s2  Split: next piece starts one too late  -> must be reported
 #   s3  HasPrefix: len(s) > l instead of >=    -> must be reported
 #   s4  Index: i <= len(s)                     -> NOT property-breaking (it repairs Index("","")): silent, 2 known lines no longer reproduce
-#   fix the repair proposed in the report      -> silent, only the two back-end (C08) lines still reproduce
+#   fix the repair proposed in the report      -> the 11 logic lines stop reproducing; the two back-end (C08) lines stay and ONE new
+#       back-end key appears (Split ...,piece-blank-lossy symptom=backend-quoting: those tuples were masked by the logic defect)
 set -e
 export GOFLAGS=-mod=mod GOPROXY=off GOSUMDB=off GOTOOLCHAIN=local GOCACHE=/verif/.cache/go-build CGO_ENABLED=0
 here="$(cd "$(dirname "$0")" && pwd)"
@@ -23,7 +24,7 @@ for old,new in $2:
     s=s.replace(old,new,1)
 open(p,'w').write(s)
 PY
-  ( cd "$d" && ./bin/c15-dev > out.txt 2> err.txt; echo "[$1] exit=$? violations=$(grep -c '^VIOLATION' out.txt) $(tail -1 out.txt)"; grep '^VIOLATION' out.txt | head -2 | cut -c1-240 )
+  ( cd "$d" && st=0; ./bin/c15-dev > out.txt 2> err.txt || st=$?; echo "[$1] exit=$st violations=$(grep -c '^VIOLATION' out.txt) $(tail -1 out.txt)"; grep '^VIOLATION' out.txt | head -2 | cut -c1-240 )
 }
 mut s1 '[("for i := 0; i < len(s); i++ {\n\t\tj := 0","for i := 1; i < len(s); i++ {\n\t\tj := 0")]'
 mut s2 '[("endI += sepLen\n\t\t\t\t\tstartI = endI","endI += sepLen\n\t\t\t\t\tstartI = endI + 1")]'
